@@ -1,6 +1,6 @@
 SPECIFICATION Spec
 CONSTANTS MaxLen = 5 Wide = TRUE
-  Kinds <- AllKinds
+  Kinds <- ThoroughKinds
 INVARIANT Aggregate
 INVARIANT Yielded
 INVARIANT FreshEquiv
